@@ -230,6 +230,7 @@ static void a_one(int sv, int ver, int alg, const char *key, size_t keylen, int 
 	vf_count("requests_checked", 1);
 	rp_req_free(&r);
 done:
+	if (getenv("VF_DEBUG")) { fprintf(stderr, "[%s %s login#%d key %zu content %d] nreq=%d res=0x%x\n", tag, CLNAME[client], li, keylen, content, A.nreq, res); KSI_ERR_statusDump(ctx, stderr); }
 	KSI_CTX_free(ctx);
 	note_leak();
 }
@@ -264,9 +265,9 @@ static void part_a(void) {
 enum { K_AGGR = 0, K_EXT, K_ACONF, K_ECONF, K_N };
 static const char *KNAME[K_N] = {"aggr", "ext", "aconf", "econf"};
 enum { M_NONE = 0, M_FLIP, M_TRUNC, M_KEY, M_ALG, M_ALG_UNPIN, M_ALG_UNPIN_BADKEY, M_VERSION, M_NO_HEADER, M_NO_MAC, M_MAC_FIRST, M_HEADER_LAST, M_BAD_MAC,
-       M_EP0_BAD, M_CROSS_KEY, M_N };
+       M_EP0_BAD, M_CROSS_KEY, M_SPLICE, M_N };
 static const char *MNAME[M_N] = {"authentic", "flip", "trunc", "other-key", "other-alg", "other-alg-unpinned", "unpinned-bad-key", "other-version", "no-header", "no-mac",
-                                 "mac-not-last", "header-last", "bad-mac", "ha-one-endpoint-bad", "ha-cross-key"};
+                                 "mac-not-last", "header-last", "bad-mac", "ha-one-endpoint-bad", "ha-cross-key", "splice"};
 #define NKEYVAR 5
 #define B_TA 1700000000ULL
 #define B_T0 1600000000ULL
@@ -353,12 +354,14 @@ static void v1_aconf_payload(vbuf *out, uint64_t req_id) {
 	vb_free(&c); vb_free(&b);
 }
 
+static const char *B_login_override;
 static void build_response(vbuf *out, const rp_req *r, int ep, int version, int alg, const char *key, size_t keylen, unsigned flags, int record) {
 	rp_env e;
 	vbuf body, payload;
 	uint64_t id = r->has_req ? r->req_id : 1;
 	memset(&e, 0, sizeof e);
-	e.version = version; e.kind = kind_is_aggr(B.kind) ? RP_AGGR : RP_EXT; e.login = B.login[ep]; e.mac_alg = alg; e.key = key; e.keylen = keylen; e.flags = flags;
+	e.version = version; e.kind = kind_is_aggr(B.kind) ? RP_AGGR : RP_EXT; e.login = B_login_override ? B_login_override : B.login[ep]; e.mac_alg = alg; e.key = key; e.keylen = keylen; e.flags = flags;
+	e.with_ids = 1; e.instance_id = 0x1234; e.message_id = 7;
 	vb_init(&body); vb_init(&payload);
 	switch (B.kind) {
 		case K_AGGR: {
@@ -459,6 +462,23 @@ static void b_handler(const unsigned char *req, size_t n, vbuf *resp, void *user
 		case M_BAD_MAC: build_response(sent, &r, ep, B.version, B.cfg_alg, key, kl, RP_F_BAD_MAC, 0); break;
 		case M_EP0_BAD: build_response(sent, &r, ep, B.version, B.cfg_alg, key, kl, ep == 0 ? RP_F_BAD_MAC : 0, 0); break;
 		case M_CROSS_KEY: build_response(sent, &r, ep, B.version, B.cfg_alg, B.key[other], strlen(B.key[other]), 0, 0); break;
+		case M_SPLICE: {
+			/* the first arg bytes of the authentic response followed by the rest of ANOTHER authentic response under the same key
+			 * (same payload, one letter of the header's login id differs; same length) */
+			vbuf alt;
+			char lg[64];
+			vb_init(&alt);
+			snprintf(lg, sizeof lg, "%s", B.login[ep]);
+			lg[strlen(lg) - 1] = 'X';
+			B_login_override = lg;
+			build_response(&alt, &r, ep, B.version, B.cfg_alg, key, kl, 0, 0);
+			B_login_override = NULL;
+			if (alt.n != auth->n) vf_harness_error("splice: lengths differ");
+			vb_put(sent, auth->p, (size_t)B.arg < auth->n ? (size_t)B.arg : auth->n);
+			if ((size_t)B.arg < alt.n) vb_put(sent, alt.p + B.arg, alt.n - (size_t)B.arg);
+			vb_free(&alt);
+			break;
+		}
 		default: vb_putvb(sent, auth); break;
 	}
 	vb_putvb(resp, sent);
@@ -740,7 +760,7 @@ static void b_deviant(int kind, int version, int client, int alg, const char *co
 }
 
 /* length of the authentic response (the enumeration needs a bound before anything is run) */
-static size_t dry_len(int kind, int version) {
+static size_t dry_len(int kind, int version, int alg) {
 	rp_req r;
 	vbuf o;
 	size_t n;
@@ -752,7 +772,7 @@ static size_t dry_len(int kind, int version) {
 	ext_source(&s);
 	rs_aggr_root(&s, 0, B.root, &B.root_len, NULL);
 	vb_init(&o);
-	build_response(&o, &r, 0, version, RH_SHA256, B_KEY[0], strlen(B_KEY[0]), 0, 0);
+	build_response(&o, &r, 0, version, alg, B_KEY[0], strlen(B_KEY[0]), 0, 0);
 	n = o.n;
 	vb_free(&o);
 	return n;
@@ -777,7 +797,7 @@ static void part_b(void) {
 			int ai, fam, ki;
 			long nbits, nchunks;
 			if (!kind_exists(kind, ver, cl)) continue;
-			if (n0 == 0) n0 = dry_len(kind, ver);
+			if (n0 == 0) n0 = dry_len(kind, ver, RH_SHA256);
 
 			/* ---- authentic responses: every MAC algorithm x key lengths around the block sizes */
 			if (vf_case_begin("B:auth:%s:v%d:%s", KNAME[kind], ver, CLNAME[cl])) {
@@ -805,6 +825,7 @@ static void part_b(void) {
 					for (fam = M_KEY; fam < M_N; fam++) {
 						long a, na = 1;
 						if ((fam == M_EP0_BAD || fam == M_CROSS_KEY) && CL_NEP(cl) != 2) continue;
+						if (fam == M_SPLICE) continue;
 						if (fam == M_KEY) na = NKEYVAR;
 						if (fam == M_ALG || fam == M_ALG_UNPIN || fam == M_ALG_UNPIN_BADKEY) na = NMACALG;
 						for (a = 0; a < na; a++) {
@@ -828,45 +849,55 @@ static void part_b(void) {
 				vf_case_end(1);
 			}
 
-			/* ---- every single-bit flip */
-			nbits = (long)(n0 + 4) * 8;
-			nchunks = (nbits + CHUNK_BITS - 1) / CHUNK_BITS;
-			for (c = 0; c < nchunks; c++) {
-				vbuf base;
-				long bit, done = 0;
+			/* ---- every single-bit flip (per MAC algorithm: the MAC element has another length and algorithm id) */
+			for (ai = 0; ai < NMACALG; ai++) {
+				int alg = MACALGS[ai];
+				size_t na;
+				if (!ref_backend_supports(alg)) continue;
+				if (ai != 0 && !(VF_THOROUGH && (cl == CL_STCP || cl == CL_AHTTP))) continue;
 				if (!VF_THOROUGH) {
 					/* quick: all bits of every response kind through the blocking TCP client, the asynchronous HTTP client and the
-					 * 2-endpoint HA service over TCP; the other clients in the thorough tier */
-					if (!(cl == CL_STCP || cl == CL_AHTTP || cl == CL_HA2T)) continue;
+					 * 2-endpoint HA service over TCP; the v2 aggregation response through every client */
+					if (!(cl == CL_STCP || cl == CL_AHTTP || cl == CL_HA2T || (kind == K_AGGR && ver == 2))) continue;
 				}
-				if (!vf_case_begin("B:flip:%s:v%d:%s:%ld", KNAME[kind], ver, CLNAME[cl], c)) continue;
-				vb_init(&base);
-				if (b_baseline(kind, ver, cl, RH_SHA256, B_LOGIN, B_KEY, &base, 0)) {
-					long total = (long)B.auth[0].n * 8;
-					if (B.auth[0].n > n0 + 4) vf_harness_error("authentic response longer (%zu) than the enumeration bound (%zu)", B.auth[0].n, n0 + 4);
-					for (bit = c * CHUNK_BITS; bit < (c + 1) * CHUNK_BITS && bit < total; bit++) { b_deviant(kind, ver, cl, RH_SHA256, B_LOGIN, B_KEY, M_FLIP, bit, &base); done++; }
-					vf_count("bit_flips", done);
-					if (c == 0) vf_sample("flip: %s v%d via %s: bits %ld..%ld of the %zu-byte authentic response, each run to completion; delivered => reference authenticates the sent bytes and content identical", KNAME[kind], ver, CLNAME[cl], c * CHUNK_BITS, c * CHUNK_BITS + done - 1, B.auth[0].n);
+				na = ai == 0 ? n0 : dry_len(kind, ver, alg);
+				nbits = (long)(na + 4) * 8;
+				nchunks = (nbits + CHUNK_BITS - 1) / CHUNK_BITS;
+				for (c = 0; c < nchunks; c++) {
+					vbuf base;
+					long bit, done = 0;
+					if (!vf_case_begin("B:flip:%s:v%d:%s:a%d:%ld", KNAME[kind], ver, CLNAME[cl], alg, c)) continue;
+					vb_init(&base);
+					if (b_baseline(kind, ver, cl, alg, B_LOGIN, B_KEY, &base, 0)) {
+						long total = (long)B.auth[0].n * 8;
+						if (B.auth[0].n > na + 4) vf_harness_error("authentic response longer (%zu) than the enumeration bound (%zu)", B.auth[0].n, na + 4);
+						for (bit = c * CHUNK_BITS; bit < (c + 1) * CHUNK_BITS && bit < total; bit++) { b_deviant(kind, ver, cl, alg, B_LOGIN, B_KEY, M_FLIP, bit, &base); done++; }
+						vf_count("bit_flips", done);
+						if (c == 0) vf_sample("flip: %s v%d via %s, MAC alg %d: bits %ld..%ld of the %zu-byte authentic response, each run to completion; delivered => reference authenticates the sent bytes and content identical", KNAME[kind], ver, CLNAME[cl], alg, c * CHUNK_BITS, c * CHUNK_BITS + done - 1, B.auth[0].n);
+					}
+					vb_free(&base);
+					vf_case_end(done > 0);
 				}
-				vb_free(&base);
-				vf_case_end(done > 0);
 			}
 
-			/* ---- every truncation */
-			nchunks = ((long)n0 + 4 + CHUNK_TRUNC - 1) / CHUNK_TRUNC;
-			for (c = 0; c < nchunks; c++) {
-				vbuf base;
-				long len, done = 0;
-				if (!VF_THOROUGH && !(cl == CL_STCP || cl == CL_SHTTP || cl == CL_ATCP || cl == CL_HA1H)) continue;
-				if (!vf_case_begin("B:trunc:%s:v%d:%s:%ld", KNAME[kind], ver, CLNAME[cl], c)) continue;
-				vb_init(&base);
-				if (b_baseline(kind, ver, cl, RH_SHA256, B_LOGIN, B_KEY, &base, 0)) {
-					long total = (long)B.auth[0].n;
-					for (len = c * CHUNK_TRUNC; len < (c + 1) * CHUNK_TRUNC && len < total; len++) { b_deviant(kind, ver, cl, RH_SHA256, B_LOGIN, B_KEY, M_TRUNC, len, &base); done++; }
-					vf_count("truncations", done);
+			/* ---- every truncation, every splice point with another authentic response */
+			for (fam = M_TRUNC; fam <= M_SPLICE; fam += M_SPLICE - M_TRUNC) {
+				nchunks = ((long)n0 + 4 + CHUNK_TRUNC - 1) / CHUNK_TRUNC;
+				for (c = 0; c < nchunks; c++) {
+					vbuf base;
+					long len, done = 0;
+					if (!VF_THOROUGH && fam == M_TRUNC && !(cl == CL_STCP || cl == CL_SHTTP || cl == CL_ATCP || cl == CL_HA1H)) continue;
+					if (!VF_THOROUGH && fam == M_SPLICE && !(cl == CL_SHTTP || cl == CL_ATCP || cl == CL_HA2H)) continue;
+					if (!vf_case_begin("B:%s:%s:v%d:%s:%ld", MNAME[fam], KNAME[kind], ver, CLNAME[cl], c)) continue;
+					vb_init(&base);
+					if (b_baseline(kind, ver, cl, RH_SHA256, B_LOGIN, B_KEY, &base, 0)) {
+						long total = (long)B.auth[0].n;
+						for (len = c * CHUNK_TRUNC; len < (c + 1) * CHUNK_TRUNC && len < total; len++) { b_deviant(kind, ver, cl, RH_SHA256, B_LOGIN, B_KEY, fam, len, &base); done++; }
+						vf_count(fam == M_TRUNC ? "truncations" : "splices", done);
+					}
+					vb_free(&base);
+					vf_case_end(done > 0);
 				}
-				vb_free(&base);
-				vf_case_end(done > 0);
 			}
 		}
 	}
